@@ -233,6 +233,60 @@ def mkNonStatio (a : StatioArgs) (cart : Bool) (bt nt : Nat) (tmin tmax : Rat) (
     let times ← mkTimes a.method tmin tmax nt ot
     pure { statio := s, times := times }
 
+/-! ### residual-adaptive resampling (RAR) set-up: pre-allocated stores -/
+
+/-- `_check_and_set_rar_parameters`: with `rar_parameters` the start size must be given
+    (`ValueError` otherwise) and a fresh generator's epoch covers its first `n_start` points
+    (`n_eff = n_start + rar_iter_nb · selected`, `rar_iter_nb = 0`); without, `n_start := n`.
+    The store itself always has all `n` points (the inactive ones are pre-allocated). -/
+def rarStart (rar : Bool) (n : Nat) (nStart : Option Nat) : Except Err Nat :=
+  if rar then
+    match nStart with
+    | none => .error .valueError
+    | some s => .ok s
+  else .ok n
+
+/-- `DataGeneratorODE.__post_init__` with the RAR set-up: the RAR check precedes the time data -/
+def mkTimesRar (method : String) (tmin tmax : Rat) (nt : Nat) (rar : Bool) (ntStart : Option Nat)
+    (oracle : List Rat) : Except Err (List Rat × Nat) :=
+  match rarStart rar nt ntStart with
+  | .error e => .error e
+  | .ok ntEff =>
+    match mkTimes method tmin tmax nt oracle with
+    | .error e => .error e
+    | .ok times => .ok (times, ntEff)
+
+/-- `CubicMeshPDEStatio.__post_init__` with the RAR set-up: assertions, then the RAR check, then
+    everything else; returns the generator and the epoch size `n_eff` of its interior cursor -/
+def mkStatioRar (a : StatioArgs) (rar : Bool) (nStart : Option Nat) (o : StatioOracle) :
+    Except Err (Statio × Nat) :=
+  if a.dim ≠ a.mins.length ∨ a.dim ≠ a.maxs.length then .error .assertionError
+  else
+    match rarStart rar a.n nStart with
+    | .error e => .error e
+    | .ok nEff =>
+      match mkStatio a o with
+      | .error e => .error e
+      | .ok s => .ok (s, nEff)
+
+/-- `CubicMeshPDENonStatio.__post_init__` with the RAR set-up: the stationary part (with its RAR
+    check), the pairing guard, the RAR check of the time store, the time data -/
+def mkNonStatioRar (a : StatioArgs) (cart : Bool) (bt nt : Nat) (tmin tmax : Rat) (rar : Bool)
+    (nStart ntStart : Option Nat) (o : StatioOracle) (ot : List Rat) :
+    Except Err (NonStatio × Nat × Nat) :=
+  match mkStatioRar a rar nStart o with
+  | .error e => .error e
+  | .ok (s, nEff) =>
+    match Jinns.Cartesian.pairingGuard cart a.dim bt a.b s.bb with
+    | .error _ => .error .valueError
+    | .ok _ =>
+      match rarStart rar nt ntStart with
+      | .error e => .error e
+      | .ok ntEff =>
+        match mkTimes a.method tmin tmax nt ot with
+        | .error e => .error e
+        | .ok times => .ok ({ statio := s, times := times }, nEff, ntEff)
+
 /-! ### batches -/
 
 /-- `jax.lax.dynamic_slice` refuses a slice larger than the operand (`TypeError`), which is how a
